@@ -449,7 +449,8 @@ fn from_parts_all(n: usize, r: &mut Report) {
 fn adversarial(r: &mut Report) {
 	let max = P::MAX as u64;
 	let mut forms: Vec<(String, Value, bool)> = Vec::new(); // (name, value, must_be_err)
-	for len in [0usize, 1, 2, 3, 7, 254, 255, 256, 1000] {
+	let lens: &[usize] = if cfg!(miri) { &[0, 1, 2, 3] } else { &[0, 1, 2, 3, 7, 254, 255, 256, 1000] };
+	for &len in lens {
 		if len as u64 > 70000 {
 			continue;
 		}
@@ -551,7 +552,7 @@ pub fn run(ctx: &Ctx, r: &mut Report) {
 		return;
 	}
 	let arg_small = ctx.arg.as_deref() == Some("miri");
-	let lim = if arg_small { 6 } else { max_n };
+	let lim = if arg_small { if ctx.thorough { 8 } else { 4 } } else { max_n };
 	for n in 0..=lim {
 		if !ctx.mine(n as u64) {
 			continue;
